@@ -148,6 +148,7 @@ type scripted struct {
 	killed  chan struct{}
 	kdone   bool
 	started bool
+	pending bool
 }
 
 func (s *scripted) SetStdout(o io.Writer) { s.stdout = o }
@@ -165,7 +166,8 @@ func (s *scripted) Kill(sig os.Signal) error {
 	w.log(Ev{E: "k", I: s.idx, Sig: signum(sig)})
 	ignore := s.idx >= 0 && w.c.Steps[s.idx].Ignore && signum(sig) != int(syscall.SIGKILL)
 	s.mu.Lock()
-	if !s.started { // like the command executor: no process yet, the signal is lost (command.go:68-75)
+	if !s.started && !ignore { // like the command executor (fix fc2d5bb): no process yet, the signal is delivered at start
+		s.pending = true
 		ignore = true
 	}
 	s.mu.Unlock()
@@ -246,6 +248,10 @@ func (s *scripted) Run() error {
 	w.mu.Unlock()
 	s.mu.Lock()
 	s.started = true
+	if s.pending && !s.kdone {
+		s.kdone = true
+		close(s.killed)
+	}
 	s.mu.Unlock()
 	w.log(Ev{E: "s", I: s.idx, A: a, Snap: snap})
 	var err error
@@ -740,6 +746,27 @@ func stopCases(r *vh.Rng, logDir string, reps int) []Case {
 	return out
 }
 
+// a stop that interrupts nothing: it is fired the instant the last command ends (delay 0), while other steps are
+// skipped; either the worker wins (every step finished/skipped: the run is finished, onSuccess) or the Signal pass
+// wins (the step is flipped: canceled, onCancel) - both are legitimate, a finished/skipped table reported canceled is not
+func lateStopCases(r *vh.Rng, k int) []Case {
+	var out []Case
+	for i := 0; i < k; i++ {
+		a := hold([]int{}, 1500+r.Below(3)*500)
+		skip := hold([]int{}, 2000)
+		skip.HasPre, skip.Pre = true, false
+		dep := hold([]int{1}, 2000)
+		steps := []StepC{a, skip, dep}
+		if r.Bool() {
+			steps = []StepC{a, skip}
+		}
+		c := Case{Steps: steps, Policy: "hold", Handlers: handlerSet(15, r, 0), Stop: &StopC{At: 2, DelayUs: r.Below(3) * 30}}
+		prep(&c, r, "latestop")
+		out = append(out, c)
+	}
+	return out
+}
+
 // a stop that arrives while the handlers run (F4a)
 func stopHandlerCases(r *vh.Rng, logDir string, k int) []Case {
 	var out []Case
@@ -970,6 +997,7 @@ func main() {
 				cases = append(cases, stopHandlerCases(rng, logDir0, 6*mult)...)
 				cases = append(cases, stopCases(rng, logDir0, 1*mult)...)
 				cases = append(cases, windowCases(rng, 2*mult)...)
+				cases = append(cases, lateStopCases(rng, 40*mult)...)
 			} else {
 				cases = append(cases, stopCases(rng, logDir0, 2*mult)...)
 				cases = append(cases, windowCases(rng, 4*mult)...)
@@ -1018,6 +1046,16 @@ func main() {
 			for i := 0; i < nWide; i++ {
 				cases = append(cases, wideCase(rng))
 			}
+			// the scenario of the (fixed) done == nil stale-worker flip: retries with interval 0, a spinning loop
+			nFlip := 0
+			if focus == "C01" && tier != "search" {
+				nFlip = 2500
+			}
+			for i := 0; i < nFlip; i++ {
+				s0 := StepC{Deps: []int{}, Pre: true, Retry: true, Rlimit: 30, IntervalUs: 0, Fails: -1}
+				s1 := StepC{Deps: []int{0}, Pre: true}
+				cases = append(cases, Case{Stream: "flip", Steps: []StepC{s0, s1}})
+			}
 			for i := 0; i < nDry; i++ {
 				c := randomCase(rng, 2, 7, w)
 				c.Stream = "dry"
@@ -1027,6 +1065,9 @@ func main() {
 			for i := range cases {
 				finishCase(&cases[i], rng, focus)
 				cases[i].K = i
+				if cases[i].Stream == "flip" {
+					cases[i].Policy, cases[i].PauseUs, cases[i].Done = "imm", 1, false
+				}
 			}
 		}
 	}
